@@ -99,7 +99,7 @@ type Interp struct {
 	// per-path results
 	violations []violation
 	covers     map[string]bool
-	observes   []string
+	observes   []obsRec
 	incon      []string
 	knownSeen  map[string]bool
 	funcsHit   map[*ssa.Function]bool
@@ -355,13 +355,22 @@ func (in *Interp) global(g *ssa.Global) *Obj {
 	if o, ok := in.globals[g]; ok {
 		return o
 	}
-	if !in.P.initialized(g.Pkg) && !in.initing {
+	if !in.P.initialized(g.Pkg) && !(in.initing && g.Pkg == in.curInitPkg) && !zeroOKGlobals[g.String()] {
 		panic(inconclusive("global of uninitialised package: " + g.String()))
 	}
 	o := in.allocType(g.Type().(*types.Pointer).Elem(), "global "+g.String())
 	in.globals[g] = o
 	return o
 }
+
+// Packages whose code depends on runtime internals the boxed memory model
+// cannot represent: entering one of their functions without a model is
+// reported, never approximated.
+var blockedPkgs = map[string]bool{"reflect": true, "internal/reflectlite": true, "runtime": true, "syscall": true, "os": true,
+	"time": true, "net": true, "net/http": true, "encoding/json": true, "encoding/xml": true, "internal/abi": true,
+	"internal/poll": true, "os/exec": true, "internal/cpu": true, "sync": true, "context": true, "regexp": true, "regexp/syntax": true, "log": true, "fmt": true}
+
+var zeroOKGlobals = map[string]bool{"os.Stderr": true, "os.Stdout": true, "os.Stdin": true}
 
 // ---- memory ---------------------------------------------------------------
 
@@ -935,6 +944,9 @@ func (in *Interp) callFunction(fn *ssa.Function, args []Value, fv []Value, calle
 	}
 	if fn.Blocks == nil {
 		panic(inconclusive("function without body and without model: " + fn.String()))
+	}
+	if fn.Pkg != nil && blockedPkgs[fn.Pkg.Pkg.Path()] {
+		panic(inconclusive("unmodelled function of an out-of-reach library package: " + fn.String()))
 	}
 	in.depth++
 	if in.depth > in.maxDepth {
